@@ -196,6 +196,10 @@ func (p *PeerScoreParams) validate() error {
 		}
 	}
 
+	if isInvalidNumber(p.AppSpecificWeight) {
+		return fmt.Errorf("invalid AppSpecificWeight; must be a valid number")
+	}
+
 	if !p.SkipAtomicValidation || p.IPColocationFactorWeight != 0 {
 		// check the IP collocation factor
 		if p.IPColocationFactorWeight > 0 || isInvalidNumber(p.IPColocationFactorWeight) {
